@@ -178,11 +178,11 @@ add(Contract('engine.YP.query', 'gen', [('self', 'YP'), ('name', 'Str'), ('args'
                  ('(ite (>= (select {pstore0} ' + _QK + ') 0) (ADyn {args} (select {pstore0} ' + _QK + ')) (ASemidet SFail))', 'true'),
                  # ... then the definition for exactly len(args) arguments, else the variadic one, looked up
                  # when the facts are exhausted (late binding); API names are never callable
-                 ('(AFun ' + _LOOKUP + ' {args})', '(and (not (select {blacklist} {name})) (>= ' + _LOOKUP + ' 0))'),
+                 ('(AFun ' + _LOOKUP + ' {args})', '(and (not (select {blacklist} {name})) (not (= ' + _LOOKUP + ' (- 1))))'),
              ]}))
 
 _G = '(resolve {goal} {S0})'
-add(Contract('engine.YP.call', 'gen', [('self', 'YP'), ('goal', 'Term'), ('args', 'TList')], ret='Iter',
+add(Contract('engine.YP.call', 'gen', [('self', 'YP'), ('goal', 'Term'), ('args', 'Star:TList')], ret='Iter',
              answers='(ACall {goal} {args})',
              raises={'YPException': '(not (callable ' + _G + '))', 'UserException': None, 'RecursionError': None},
              ghost={'segments': [
@@ -193,4 +193,77 @@ add(Contract('engine.YP.once', 'gen', [('self', 'YP'), ('goal', 'Term')], ret='I
              raises=['YPException', 'UserException', 'RecursionError'],
              yields=['(= {__nactive} 1)', '(= (h_ans {__active0}) (ACall {goal} nil))', '(= (select {hcnt} {__active0}) 1)'],
              exit=['(or (= {__yields} 1) {loop0_exhausted})'],
+             loops={0: LoopSpec(['(= (select {hcnt} {it}) 0)'])},
              ghost={'max_yields': 1}))
+
+add(Contract('engine.YP.makelist', 'pure', [('self', 'YP'), ('l', 'TList')], ret='Term', value='(mklist {l})',
+             notes='assumed (functools.reduce over reversed: A-EXT-REDUCE); bounded-checked under C16'))
+
+add(Contract('engine.YP.findall', 'gen', [('self', 'YP'), ('template', 'Term'), ('goal', 'Term'), ('bag', 'Term')], ret='Iter',
+             answers='(AOther 3)',
+             raises=['YPException', 'UserException', 'RecursionError'],
+             # one answer, produced by unifying the bag with the list of collected template copies; the goal
+             # iterator call(goal) has been run to exhaustion before (so no binding made by the goal is left)
+             yields=['(= {__nactive} 1)',
+                     '(= (h_ans {q}) (ACall {goal} nil))',
+                     '(= (select {ist} {q}) DONE)',
+                     '(= (h_res {__active0}) (su {bag} (mklist {__collected}) (h_cs {__active0})))'],
+             ghost={'max_yields': 1}))
+
+_EQARGS = '(cons {arg1} (cons {arg2} nil))'
+add(Contract('engine.YP.builtin_neq', 'gen', [('self', 'YP'), ('arg1', 'Term'), ('arg2', 'Term')], ret='Iter',
+             answers='(AOther 4)',
+             raises=['UserException', 'RecursionError'],
+             # succeeds once, with no iterator suspended (so binding nothing), iff query('=',[X,Y]) has no answer
+             yields=['(= {__nactive} 0)',
+                     '(= (h_ans {loop2_it}) (AQuery "=" ' + _EQARGS + '))',
+                     '(= (select {hcnt} {loop2_it}) 0)',
+                     '(= (select {ist} {loop2_it}) DONE)'],
+             exit=['(or (= {__yields} 1) (>= (select {hcnt} {loop2_it}) 1))'],
+             loops={2: LoopSpec(['(= (select {hcnt} {it}) 0)', '(not {doBreak})', '(not {cutIf1})'])},
+             ghost={'max_yields': 1}))
+
+add(Contract('engine.YP.register_function', 'fn',
+             [('self', 'YP'), ('name', 'Str'), ('func', 'Fn'), ('arity', 'Opt:OptInt:None')], ret='None',
+             modifies=['ectx'],
+             ensures=['(= {ectx} (store {ectx0} (ite {arity.none} (str.++ {name} "_" (str.from_int (nparams {func})))'
+                      ' (ite (< {arity} 0) (str.++ {name} "_n") (str.++ {name} "_" (str.from_int {arity})))) {func}))']))
+
+add(Contract('engine.YP.evaluate_bounded', 'fn',
+             [('self', 'YP'), ('query', 'GenHandle'), ('projection_function', 'UserFn'), ('recursion_limit', 'Opt:Int:200')],
+             ret='Any',
+             requires=['(< rdepth {rlimit})'],
+             modifies=['rlimit'],
+             # (i) the interpreter limit is restored, (iv) the query is finalised - on normal return ...
+             ensures=['(= {rlimit} {rlimit0})', '(not (= (select {ist} {query}) SUSP))',
+                      # (iii) one projected value per answer consumed, in order
+                      '(<= (seq.len (select {lists} {result})) (- (select {hcnt} {query}) (select {hcnt0} {query})))',
+                      '(>= (seq.len (select {lists} {result})) (- (- (select {hcnt} {query}) (select {hcnt0} {query})) 1))'],
+             # ... and when the projection function raises; (ii) RecursionError never escapes (not listed here)
+             raises={'UserException': None},
+             ghost={'exc_ensures': ['(= {rlimit} {rlimit0})', '(not (= (select {ist} {query}) SUSP))']},
+             loops={0: LoopSpec(['(= {rlimit} {recursion_limit})',
+                                 '(and (<= 0 {result}) (< {result} {nextref}) (not (select {published} {result})))',
+                                 '(= (seq.len (select {lists} {result})) (- (select {hcnt} {it}) (select {hcnt0} {it})))'])}))
+
+add(Contract('engine.chain_functions', 'pure', [('func1', 'OptFn'), ('func2', 'Fn')], ret='Fn',
+             value='(ite (= {func1} (- 1)) {func2} (chainfn {func1} {func2}))',
+             notes='assumed: itertools.chain over [f(*args) for f in funcs] (A-EXT-ITERTOOLS); bounded-checked under C08'))
+
+_MERGED = ('(ite (= (select {ectx0} x) (select {new_context} x)) (select {ectx0} x)'
+           ' (ite {overwrite} (select {new_context} x)'
+           ' (ite (= (select {ectx0} x) (- 1)) (select {new_context} x) (chainfn (select {ectx0} x) (select {new_context} x)))))')
+add(Contract('engine.YP.load_script_from_string', 'fn',
+             [('self', 'YP'), ('s', 'Str'), ('fn', 'Opt:Str:None'), ('overwrite', 'Opt:Bool:True')], ret='None',
+             modifies=['ectx'],
+             raises={'UserException': None},
+             # a load that raises leaves the engine unchanged
+             ghost={'exc_ensures': ['(= {ectx} {ectx0})']},
+             # every key of the executed context whose value differs is replaced (overwrite) or chained after the
+             # existing definition (combine); every other key is untouched
+             ensures=['(forall ((x String)) (! (= (select {ectx} x) (ite (>= (select {new_context} x) 0) ' + _MERGED.replace('{', '{') +
+                      ' (select {ectx0} x))) :pattern ((select {ectx} x))))'],
+             loops={0: LoopSpec([
+                 '(forall ((x String)) (! (= (select {ectx} x) (ite (select {P} x) ' + _MERGED + ' (select {ectx0} x))) :pattern ((select {ectx} x))))',
+                 '(forall ((x String)) (! (=> (select {P} x) (>= (select {new_context} x) 0)) :pattern ((select {P} x))))',
+             ])}))
